@@ -272,7 +272,10 @@ impl Evaluator {
                 & !state.board().occupancy()
                 & !state.board().colored_attacks(!state.turn_to_move());
 
-            valid_king_squares.any()
+            // A free neighbour only proves a legal move when the king is not in check:
+            // a square behind the king on the checking slider's ray is not marked as
+            // attacked while the king still shields it.
+            valid_king_squares.any() && !state.is_check()
         };
 
         // If the king can move, we're definitely not in checkmate or stalemate, so we can
